@@ -104,6 +104,8 @@ Tmpl(s, lv) ==
     [] s = "Lambda0" -> Lam(<<>>, <<V(lv, 1)>>)
     [] s = "LambdaDef" -> Lam(<<Par("p", "pos", 0), Par("x", "arg", 2), Par("va", "var", 0), Par("k", "kwo", 3), Par("kw", "varkw", 0)>>,
                               <<V(lv, 1), V(lv, 2), V(lv, 3)>>)
+    [] s = "LambdaPart" -> Lam(<<Par("p", "pos", 0), Par("x", "arg", 0), Par("y", "arg", 2), Par("z", "arg", 3)>>,      \* lambda p, /, x, y=b, z=c: a
+                               <<V(lv, 1), V(lv, 2), V(lv, 3)>>)
     [] s = "List" -> N("List", "", <<V(lv, 1), V(lv, 2)>>)
     [] s = "List1" -> N("List", "", <<V(lv, 1)>>)
     [] s = "List0" -> N("List", "", <<>>)
@@ -146,7 +148,7 @@ Slots == [
   IfExp |-> << <<1>>, <<2>>, <<3>> >>,
   FStr |-> << <<1, 1>> >>, FStrTxt |-> << <<2, 1>> >>, FStrQuote |-> << <<2, 1>> >>, FStrBrace |-> << <<2, 1>> >>,
   FStrConv |-> << <<1, 1>> >>, FStrSpec |-> << <<1, 1>>, <<1, 2, 2, 1>> >>,
-  Lambda0 |-> << <<1>> >>, LambdaDef |-> << <<1>>, <<2>>, <<3>> >>,
+  Lambda0 |-> << <<1>> >>, LambdaDef |-> << <<1>>, <<2>>, <<3>> >>, LambdaPart |-> << <<1>>, <<2>>, <<3>> >>,
   List |-> << <<1>>, <<2>> >>, List1 |-> << <<1>> >>, ListStar |-> << <<1, 1>> >>,
   Set |-> << <<1>>, <<2>> >>, SetStar |-> << <<1, 1>> >>,
   NamedExpr |-> << <<2>> >>,
@@ -166,7 +168,7 @@ TargetSlot(s, k) == s = "ListComp" /\ k = 2
 TargetShapes == {"Name", "Tuple", "Attribute", "Subscript", "List"}
 ChildShapes == {"Name", "Int", "Float", "None", "Ellipsis", "Bytes", "StrName", "StrTuple", "StrOr", "StrNested", "StrBad", "Attribute",
                 "Or", "And", "Call0", "Call1", "CallKw", "CallStar", "Compare", "Dict", "DictUnpack", "DictComp", "GeneratorExp", "ListComp", "SetComp",
-                "IfExp", "FStr", "FStrTxt", "FStrQuote", "FStrBrace", "FStrConv", "FStrSpec", "Lambda0", "LambdaDef", "List", "List0",
+                "IfExp", "FStr", "FStrTxt", "FStrQuote", "FStrBrace", "FStrConv", "FStrSpec", "Lambda0", "LambdaDef", "LambdaPart", "List", "List0",
                 "Set", "NamedExpr", "Subscript", "SubTuple", "SubSlice", "SubLiteral", "Tuple", "Tuple1", "Tuple0", "TupleStar",
                 "Not", "USub", "Yield0", "Yield", "YieldFrom"} \cup BinRep
 
@@ -216,6 +218,20 @@ FixFieldParens   == Has("t")     \* 06ab195 ExprFormatted.iterate: _operand(valu
 FixFieldBrace    == Has("u")     \* 873b196 ExprFormatted.iterate: a space before a value that starts with `{`
 FixTextEscape    == Has("v")     \* 831f109 ExprJoinedStr.iterate escapes quotes, backslashes and braces of literal text
 
+\* ---- _griffe.agents.nodes.parameters.get_parameters on the `arguments` of a lambda (vocabulary of Params.tla, C02):
+\* the ast keeps positional-only ++ positional-or-keyword parameters and ONE list `defaults` for their tail; the code
+\* pairs them by reversing both, zip_longest, and reversing again.  n.ps[i].d is the kid that CPython binds as default
+\* of parameter i (the reference, right-aligned by construction); GetParameters recomputes it the way the code does.
+Rev(sq) == [i \in 1..Len(sq) |-> sq[Len(sq) + 1 - i]]
+ZipLongest(a, b, fill) == [i \in 1..(IF Len(a) > Len(b) THEN Len(a) ELSE Len(b)) |->
+                             <<IF i <= Len(a) THEN a[i] ELSE fill, IF i <= Len(b) THEN b[i] ELSE fill>>]
+GetParameters(ps) ==
+  LET positional == SelectSeq(ps, LAMBDA q : q.kind \in {"pos", "arg"})                   \* node.posonlyargs ++ node.args, tagged with their kind
+      defaults == LET withd == SelectSeq(positional, LAMBDA q : q.d # 0) IN [i \in 1..Len(withd) |-> withd[i].d]     \* node.defaults
+      paired == Rev(ZipLongest(Rev(positional), Rev(defaults), 0))                         \* reversed(zip_longest(reversed(...), reversed(node.defaults)))
+  IN [i \in 1..Len(ps) |-> IF i <= Len(positional) THEN [paired[i][1] EXCEPT !.d = paired[i][2]] ELSE ps[i]]
+                                                                                          \* vararg, kw-only (kw_defaults has one entry per name), kwarg
+
 RECURSIVE Build(_, _)
 RECURSIVE BuildNode(_, _)
 BuildAll(kids, env) == [i \in 1..Len(kids) |-> Build(kids[i], env)]
@@ -254,7 +270,7 @@ BuildNode(n, env) ==
     [] n.t = "Lambda" ->                                                            \* _build_lambda: defaults through safe_get_expression(parse_strings=False): fresh flags
          [X("ExprLambda", "", [i \in 1..Len(n.kids) |-> IF i = 1 THEN Build(n.kids[1], env)
                                                          ELSE Build(n.kids[i], Env(FALSE, FALSE, FALSE, FALSE, FALSE))])
-            EXCEPT !.ps = n.ps]
+            EXCEPT !.ps = GetParameters(n.ps)]
     [] n.t = "List" -> X("ExprList", "", BuildAll(n.kids, env))
     [] n.t = "ListComp" -> X("ExprListComp", "", BuildAll(n.kids, env))
     [] n.t = "NamedExpr" -> X("ExprNamedExpr", "", BuildAll(n.kids, env))
@@ -707,7 +723,7 @@ ValidEdge(p, k, c) == TargetSlot(p, k) => c \in TargetShapes
 AllShapes == <<"Name", "Int", "Float", "None", "Ellipsis", "Bytes", "StrName", "StrTuple", "StrOr", "StrNested", "StrBad", "Attribute",
                "|", "^", "&", "<<", ">>", "+", "-", "*", "/", "//", "%", "@", "**", "Or", "And", "Or3", "Call0", "Call1", "Call2", "CallKw", "CallStar",
                "Compare", "Compare2", "Dict", "DictUnpack", "DictComp", "GeneratorExp", "ListComp", "SetComp", "ListCompIf", "ListComp2", "IfExp",
-               "FStr", "FStrTxt", "FStrQuote", "FStrBrace", "FStrConv", "FStrSpec", "Lambda0", "LambdaDef", "List", "List1", "List0", "ListStar",
+               "FStr", "FStrTxt", "FStrQuote", "FStrBrace", "FStrConv", "FStrSpec", "Lambda0", "LambdaDef", "LambdaPart", "List", "List1", "List0", "ListStar",
                "Set", "SetStar", "NamedExpr", "Subscript", "SubTuple", "SubStar", "SubSlice", "SubSliceU", "SubSliceS", "SubSliceTuple",
                "SubLiteral", "SubLiteral2", "SubLiteralSub", "Tuple", "Tuple1", "Tuple0", "TupleStar", "Not", "USub", "Invert", "UAdd", "Yield0", "Yield", "YieldFrom">>
 PIdx == {i \in 1..Len(AllShapes) : AllShapes[i] \in ParentShapes}
@@ -730,18 +746,19 @@ IsChain(ch) ==      \* the case space of the configured depth, written as nested
 \* lambda parameter lists (Family = "lambda"): the space of Params.tla, with the defaults as expressions
 LamCase(npos, narg, ndef, var, nkw, kwm, varkw) ==
   LET n == npos + narg
-      PN == <<"p1", "p2">>  AN == <<"x1", "x2">>  KN == <<"k1", "k2">>
+      PN == <<"p1", "p2", "p3">>  AN == <<"x1", "x2", "x3", "x4">>  KN == <<"k1", "k2">>
       dpos(j) == IF j > n - ndef THEN 1 + (j - (n - ndef)) ELSE 0
       nkd(i) == Cardinality({m \in 1..i : kwm[m]})
       ps == [j \in 1..npos |-> Par(PN[j], "pos", dpos(j))] \o [j \in 1..narg |-> Par(AN[j], "arg", dpos(npos + j))]
             \o (IF var THEN <<Par("va", "var", 0)>> ELSE <<>>)
             \o [i \in 1..nkw |-> Par(KN[i], "kwo", IF kwm[i] THEN 1 + ndef + nkd(i) ELSE 0)]
             \o (IF varkw THEN <<Par("kw", "varkw", 0)>> ELSE <<>>)
-      DV == <<Nm("d1"), Nm("d2"), Nm("d3"), Nm("d4")>>
+      DV == <<Nm("d1"), Nm("d2"), Nm("d3"), Nm("d4"), Nm("d5"), Nm("d6"), Nm("d7"), Nm("d8"), Nm("d9")>>
   IN Lam(ps, <<Nm("body")>> \o [i \in 1..(ndef + nkd(nkw)) |-> DV[i]])
-LamCases(mx) == UNION {UNION {{LamCase(npos, narg, ndef, var, nkw, kwm, varkw) : kwm \in [1..nkw -> BOOLEAN]} :
-                           ndef \in 0..(IF npos + narg < 2 THEN npos + narg ELSE 2), nkw \in 0..2} :
-                   npos \in 0..mx, narg \in 0..mx, var \in BOOLEAN, varkw \in BOOLEAN}
+LamCases(mp, ma) ==     \* every count of defaults: 0..npos+narg (the tail of positional-only ++ positional-or-keyword)
+  UNION {UNION {{LamCase(npos, narg, ndef, var, nkw, kwm, varkw) : kwm \in [1..nkw -> BOOLEAN]} :
+                  ndef \in 0..(npos + narg), nkw \in 0..2} :
+         npos \in 0..mp, narg \in 0..ma, var \in BOOLEAN, varkw \in BOOLEAN}
 
 \* ---- the domain on which the unchanged code satisfies every clause (defined on the source tree only) ---------------
 RECURSIVE StartsBrace(_, _)
@@ -779,7 +796,7 @@ Init ==
 
 AstParse ==            \* the source is parsed: the ast node of the case (cases outside the configured domain stop here)
   /\ pc = "source"
-  /\ \E t \in (IF Family = "lambda" THEN LamCases(2) ELSE {Compose(chain, 1)}) :
+  /\ \E t \in (IF Family = "lambda" THEN LamCases(Depth, Depth + 1) ELSE {Compose(chain, 1)}) :
         /\ tree' = t
         /\ pc' = IF \/ (Family # "lambda" /\ top = "annotation" /\ ~HasStr(t) /\ Len(chain) > 1)   \* identical to the "value" case
                      \/ (P0 /\ ~HasStr(t))
@@ -855,6 +872,14 @@ RECURSIVE ImplicitOk(_, _)
 ImplicitOk(e, direct) == /\ (e.c = "ExprTuple" /\ e.imp) => direct
                          /\ \A i \in 1..Len(e.kids) : ImplicitOk(e.kids[i], e.c = "ExprSubscript" /\ i = 2)
 ImplicitOnlyInSlice == (Done /\ Clean) => ImplicitOk(built, FALSE)
+\* every parameter of a stored lambda carries the default CPython binds to it (get_parameters = the right-aligned rule of Params.tla)
+RECURSIVE LambdasAligned(_, _)
+LambdasAligned(n, e) ==
+  IF IsStrNode(n) THEN (e.c # "Parsed" \/ LambdasAligned(n.kids[1], e.kids[1]))
+  ELSE IF e.c = "none" THEN TRUE
+  ELSE /\ n.t = "Lambda" => e.ps = n.ps
+       /\ \A i \in 1..(IF n.t = "FormattedValue" THEN Len(e.kids) ELSE Len(n.kids)) : LambdasAligned(n.kids[i], KidExpr(n, e, i))
+LambdaDefaultsAligned == Done => LambdasAligned(tree, built)
 \* every Name of the source is an ExprName element
 NamesPresent == (Done /\ (FixFormatSpec \/ ~HasSpec(tree))) => NameTokens(impl) = srcnames
 
